@@ -122,12 +122,47 @@ def run_pool(shard):
     return part.result()
 
 
+SEQ_EXPRS = ["a + b * c", "fn2(a, rec.g) > arr[b]", "a = b", "forall (i : int[0,1]) arr[i] > a", "p ? a : rec.f", "arr[a] + arr[b]",
+             "fn1(a) + fn1(a)", "(a < b) && (b < c || p)", "rec.g - rec2.g", "-a + abs(z)", "mat[a][b] * 2", "sum (i : int[0,1]) arr[i] * a",
+             "a++ + --b", "fma(z, w, z) > 1.5", "x' == a", "recs[a].f + b"]
+
+
+def run_sequences(shard):
+    """all operation sequences (equal / clone / clone_deeper / subst / child replacement over three variables) up to the depth
+    bound, each from freshly parsed objects, against a reference model of plain trees (harness/exprseq.cpp)"""
+    part = engine.Part()
+    w = engine.worker("fast")
+    text, depth = shard
+    req = {"op": "exprseq", "ctx": CTX, "items": [text], "second": "d + 1", "depth": depth}
+    r = w.call_safe(req, timeout=1200)
+    if engine.check_crash(part, PID, r, "operation sequences on " + text, req):
+        return part.result()
+    part.count(r["sequences"])
+    part.add("op_sequences", r["sequences"])
+    part.add("op_sequence_operations", r["operations"])
+    part.add("op_sequence_equal_calls", r["equal_calls"])
+    part.add("op_sequence_equal_true", r["equal_true"])
+    part.nontrivial_case("seq:" + text)
+    if r["sequences"] == 0:
+        raise RuntimeError("C19 generator bug: `%s` does not parse" % text)
+    if r["fails"]:
+        part.outcome("sequences:law-violated")
+        for f in r["fails"]:
+            part.violation("sequence:" + f.split(":")[0], f, req)
+    else:
+        part.outcome("sequences:agree-with-reference")
+    return part.result()
+
+
 def main():
     rep = engine.Report(PID, "exploration",
                         "every parsed expression of the C02 enumeration (constructors, parent/slot/child triples%s) and the C03 query "
                         "forms: clone/subst/equal/get_size laws per expression incl. every single-node perturbation (kind -> sibling "
                         "kind, symbol -> other symbol, constant +1 / +1ulp, swap of two differing children); equality as a relation "
-                        "over pools of ~170 expressions (all pairs, all triples). non-trivial = parsed expression with laws evaluated."
+                        "over pools of ~170 expressions (all pairs, all triples); every sequence of up to 3 (thorough: 4) operations from {equal, "
+                        "clone, clone_deeper, subst by another expression / by itself, replacement of a root operand} over three variables "
+                        "for 16 expressions, each from freshly parsed objects, against a reference model of plain trees. non-trivial = parsed "
+                        "expression with laws evaluated."
                         % (", depth-3 chains, two-compound-operand parents" if engine.tier() == "thorough" else ""))
     n = engine.ncpu()
     shards = [("d1", 0, 1)] + [("d2", i, n) for i in range(n)]
@@ -137,6 +172,10 @@ def main():
         rep.merge(res)
     for res in engine.pmap(run_queries, [(i, n) for i in range(n)]):
         rep.merge(res)
+    sdepth = 4 if rep.tier == "thorough" else 3
+    for res in engine.pmap(run_sequences, [(t, sdepth) for t in SEQ_EXPRS]):
+        rep.merge(res)
+    rep.extra["op_sequence_depth"] = sdepth
     for res in engine.pmap(run_pool, [(i, n) for i in range(n)]):
         rep.merge(res)
     rep.assumptions = ["node identity and stored children are read through the expression wrapper TU (harness/wrap_expression.cpp)",
